@@ -53,7 +53,10 @@ def _bonds(rng, natom, nbond, types):
 
 
 def _title(rng, tag):
-    return f"{tag} {int(rng.integers(1_000_000))} generated"
+    """Single-line ASCII titles: plain, with punctuation / quotes / brackets inside, with repeated inner blanks."""
+    n = int(rng.integers(1_000_000))
+    return [f"{tag} {n} generated", f"{tag} (run {n}; b3lyp/6-31g*) = 50% a/b #tag", f"{tag} 'quoted' \"double\" x [y] {{z}} {n}",
+            f"{tag}  two  blanks   inside {n}", f"{n}", f"{tag}_{n}: E=-1.5e+01, <S^2>=0.75 & more"][int(rng.integers(6))]
 
 
 def make(fmt, rng, klass="small"):
@@ -125,7 +128,7 @@ def make(fmt, rng, klass="small"):
         feats.update({"norb": norb, "core_energy": data.core_energy is not None})
         return data, feats
     mag = {"small": 9.0, "medium": 50.0, "large": 90.0, "wide": 900.0, "huge": 400.0}[klass]
-    atnums = rng.integers(1, 87, size=natom)
+    atnums = rng.integers(1, 119, size=natom)  # all elements
     kw = {"atnums": atnums}
     if opt(0.8):
         kw["title"] = _title(rng, fmt)
